@@ -108,12 +108,17 @@ pub fn auto_accepts(t: &[Tok]) -> bool {
 /// Reference stdout for `find ROOT <toks>` on the abstract tree.
 /// `toks` is the complete expression (including a leading Sorted when used).
 pub fn expected_output(fs: &Fs, root: &str, toks: &[Tok], ex: &Option<expr::Ex>) -> Vec<u8> {
+    expected_output_order(fs, root, toks, ex, false)
+}
+
+/// The same under -depth (`depth_first`): a directory's entries before the directory itself.
+pub fn expected_output_order(fs: &Fs, root: &str, toks: &[Tok], ex: &Option<expr::Ex>, depth_first: bool) -> Vec<u8> {
     let has_action = toks.iter().any(|t| t.is_action());
     let cfg = WalkCfg {
         follow: Follow::P,
         mindepth: 0,
         maxdepth: usize::MAX,
-        depth_first: false,
+        depth_first,
     };
     let mut notes = WalkNotes::default();
     let mut st = expr::EvalState::default();
